@@ -28,7 +28,7 @@
 
 use crate::fw::{guard, panic_kind, Ctx, Meta, Property, Tier};
 use crate::subj::{Host, SData, Subject};
-use crate::val::{self, V, GD};
+use crate::val::{self, get, put, short_err, V, GD};
 use garnish_lang_simple_data::{
     symbol_value, BasicData, BasicDataCompanion, BasicDataCustom, BasicGarnishData, DataError, ReallocationStrategy, SimpleDataType, SimpleGarnishData,
     SimpleNumber, StorageSettings,
@@ -1598,6 +1598,7 @@ impl Plan {
             ("periodic", (self.per_cfgs.len() * self.per_words.len()) as u64),
             ("simple", 8u64.pow(self.sim_k as u32)),
             ("intern", (INTERN_OPS as u64).pow(self.int_k as u32)),
+            ("internpair", pair_pool().len() as u64),
         ]
     }
     fn locate(&self, mut idx: u64) -> (&'static str, u64) {
@@ -1608,6 +1609,105 @@ impl Plan {
             idx -= c;
         }
         ("none", 0)
+    }
+}
+
+
+// ---------------------------------------------------------------------------------------------
+// interning, pairwise part: a larger pool of near-equal scalar constants (same integer part, same fraction, same
+// magnitude with opposite sign, neighbouring code points, equal numeric value in another type); every ordered pair
+// (a, b) as the history add a, add b, add a, add b on a fresh SimpleGarnishData
+
+fn pair_pool() -> Vec<V> {
+    let mut v = vec![V::Unit, V::True, V::False];
+    for i in [0, 1, -1, 2, 97, 255, 256, 65536, i32::MAX, i32::MIN, i32::MAX - 1, 1 << 30, -(1 << 30)] {
+        v.push(V::Int(i));
+    }
+    for f in [0.5, 1.0, 1.25, 1.5, 1.75, -1.5, -1.25, 2.0, 2.5, 2.25, 97.0, 97.5, 1.0e10, 1.0e10 + 2.0, 1.0e-10, 2.0e-10, 4294967296.0, 4294967297.0, 0.1, 0.30000000000000004, 0.3, f64::MAX, f64::MIN_POSITIVE] {
+        v.push(V::Float(f));
+    }
+    for c in ['a', 'b', 'A', '\u{0}', '\u{1}', 'é', '\u{100}', '😀'] {
+        v.push(V::Char(c));
+    }
+    for b in [0u8, 1, 97, 98, 255] {
+        v.push(V::Byte(b));
+    }
+    for n in ["a", "b", "ab", "ba", "", "A"] {
+        v.push(V::sym(n));
+    }
+    for n in [0usize, 1, 2, 97, 256] {
+        v.push(V::Expr(n));
+        v.push(V::External(n));
+    }
+    for t in [GarnishDataType::Unit, GarnishDataType::Number, GarnishDataType::Char, GarnishDataType::CharList, GarnishDataType::Byte, GarnishDataType::Symbol, GarnishDataType::List, GarnishDataType::Expression] {
+        v.push(V::Type(t));
+    }
+    v
+}
+
+fn same_pool_value(a: &V, b: &V) -> bool {
+    match (a, b) {
+        (V::Expr(x), V::Expr(y)) => x == y,
+        (V::Float(x), V::Float(y)) => x.to_bits() == y.to_bits(),
+        (V::Int(x), V::Int(y)) => x == y,
+        (V::Int(_), V::Float(_)) | (V::Float(_), V::Int(_)) => false,
+        _ => a == b,
+    }
+}
+
+fn pair_case(ai: usize, bi: usize) -> Option<(String, String, String)> {
+    // Some((kind, witness, detail)) on failure
+    let pool = pair_pool();
+    let (a, b) = (&pool[ai], &pool[bi]);
+    let r = guard(|| -> Result<Option<(String, String)>, String> {
+        let mut d = SData::fresh(Host::none());
+        let mut addrs = vec![];
+        for v in [a, b, a, b] {
+            addrs.push(put(&mut d, v).map_err(|e| short_err(&e))?);
+        }
+        let rb = |d: &SData, addr: usize, want: &V| -> bool {
+            let got = get(d, addr);
+            match (want, &got) {
+                (V::Expr(n), V::Expr(_)) => d.get_expression(addr).ok() == Some(*n),
+                (V::Float(x), V::Float(y)) => x.to_bits() == y.to_bits() || (x == y),
+                _ => *want == got && want.type_of() == got.type_of(),
+            }
+        };
+        for (k, v) in [a, b, a, b].iter().enumerate() {
+            if !rb(&d, addrs[k], v) {
+                return Ok(Some(("constant-reads-back-differently".into(), format!("add #{} of {} reads back {}", k, v.show(), get(&d, addrs[k]).show()))));
+            }
+        }
+        if addrs[0] != addrs[2] || addrs[1] != addrs[3] {
+            return Ok(Some(("equal-constant-new-address".into(), format!("addresses {:?}", addrs))));
+        }
+        if !same_pool_value(a, b) && addrs[0] == addrs[1] {
+            return Ok(Some(("different-constants-share-address".into(), format!("both at address {}", addrs[0]))));
+        }
+        Ok(None)
+    });
+    let class = |v: &V| format!("{:?}", v.type_of());
+    match r {
+        Ok(Ok(None)) => None,
+        Ok(Ok(Some((kind, det)))) => Some((kind, format!("simple: {} then {}", class(a), class(b)), format!("{} then {}: {}", a.show(), b.show(), det))),
+        Ok(Err(e)) => Some(("add-err".into(), format!("simple: {} then {}", class(a), class(b)), format!("{} then {}: {}", a.show(), b.show(), e))),
+        Err(p) => Some((format!("panic[{}]", short_panic(&p)), format!("simple: {} then {}", class(a), class(b)), format!("{} then {}", a.show(), b.show()))),
+    }
+}
+
+fn run_pair_row(ai: usize, cx: &mut Ctx) {
+    let n = pair_pool().len();
+    for bi in 0..n {
+        cx.eval();
+        cx.count("internpair_states", 4);
+        cx.count("internpair_transitions", 4);
+        cx.count("states", 4);
+        cx.count("transitions", 4);
+        cx.count("traces_validated", 1);
+        match pair_case(ai, bi) {
+            None => cx.nontrivial(("internpair", ai, bi)),
+            Some((kind, witness, det)) => cx.violation(&kind, &witness, json!({"part": "internpair", "impl": "simple", "a": ai, "b": bi, "shown": det})),
+        }
     }
 }
 
@@ -1732,6 +1832,7 @@ impl Property for C15 {
                 format!("periodic basic [{}] word {} repeated to length {}", cfg.show(), show_hist(&HIST, wd), p.per_len)
             }
             "simple" => format!("simple all histories to depth {} extending {}", p.sim_depth, show_hist(&SIMPLE, &decode(i, 8, p.sim_k))),
+            "internpair" => format!("internpair simple: {} then every constant of the pool", pair_pool()[i as usize].show()),
             "intern" => format!("intern simple all add sequences to length {} extending [{}]", p.int_depth, show_intern_hist(&decode(i, INTERN_OPS as u64, p.int_k))),
             _ => format!("none#{}", idx),
         }
@@ -1759,6 +1860,7 @@ impl Property for C15 {
                 run_periodic_element(cfg, wd, p.per_len, cx);
             }
             "simple" => run_simple_element(&decode(i, 8, p.sim_k), p.sim_depth, cx),
+            "internpair" => run_pair_row(i as usize, cx),
             "intern" => {
                 let prefix = decode(i, INTERN_OPS as u64, p.int_k);
                 run_intern(&prefix, p.int_depth, |j| suffix_zero(&prefix, j), cx);
@@ -1793,6 +1895,15 @@ impl Property for C15 {
             None => return,
         };
         let part = d["part"].as_str().unwrap_or("");
+        if part == "internpair" {
+            let (ai, bi) = (d["a"].as_u64().unwrap_or(0) as usize, d["b"].as_u64().unwrap_or(0) as usize);
+            if ai < pair_pool().len() && bi < pair_pool().len() {
+                if let Some((kind, witness, det)) = pair_case(ai, bi) {
+                    cx.violation(&kind, &witness, json!({"part": "internpair", "impl": "simple", "a": ai, "b": bi, "shown": det}));
+                }
+            }
+            return;
+        }
         if part == "intern" {
             run_intern(&hist, hist.len(), |_| true, cx);
             return;
@@ -1836,7 +1947,7 @@ impl Property for C15 {
                  lattice: {} configurations (the same + library default), every vector of per-block element counts with sum <= {} (6 operations, one per heap block; the data operation cycles number/register/value/frame/char-list), every outgoing transition of the canonical representative executed and read back, all 15 operation pairs compared in both orders. \
                  periodic: {} configurations (library default 10/+10, 1/x2, 0/+1), every word of length <= {} over the 9 operations repeated to length {}, read-back after every step. \
                  simple: SimpleGarnishData, all histories of length <= {} over its 8 operations. \
-                 intern: SimpleGarnishData, all sequences of length <= {} over {} near-equal constants + pair/list/concatenation. \
+                 intern: SimpleGarnishData, all sequences of length <= {} over {} near-equal constants + pair/list/concatenation; internpair: every ordered pair of a pool of near-equal scalar constants (same integer part, same fraction, opposite sign, neighbouring code points, equal value in another type) added a, b, a, b. \
                  'states' = distinct histories (hist, periodic, simple, intern) or distinct count vectors (lattice); a transition is counted non-trivial when it changes the total allocated size of a non-empty store (Basic), adds to a non-empty store (Simple) or re-adds an already stored constant (intern).",
                 p.hist_cfgs.len(),
                 if tier == Tier::Thorough { " and three mixed per-block policies" } else { "" },
